@@ -163,8 +163,16 @@ fn check_pair(src: &Sources, base: &Value, via_cli: bool, st: &mut Stats) -> Vec
     };
     st.inc("merges_compared");
     // the merged document must still be closed and structurally valid (C03's validator)
+    // a base whose carried-over components refer to schema components asks for references that dangle once the
+    // schemas are the program's: that is the base's doing
+    let open_base = ["parameters", "responses", "headers", "requestBodies"]
+        .iter()
+        .any(|k| base.pointer(&format!("/components/{k}")).is_some_and(|c| c.to_string().contains("\"$ref\"")));
+    if open_base {
+        st.inc("bases_whose_carried_over_components_refer_to_base_schemas");
+    }
     for pr in crate::oracle::validate::validate(&o) {
-        if pr.class != "duplicate-synthesised-operationId" {
+        if pr.class != "duplicate-synthesised-operationId" && !(open_base && pr.class == "dangling-ref") {
             return vec![Violation::new(
                 "the document merged with a base is not closed / structurally valid",
                 json!({"signature": format!("C14 merged-document {}", pr.class), "detail": pr.detail}),
@@ -189,7 +197,8 @@ impl Bases {
     fn case(&self, seed: u64, idx: u64, st: &mut Stats) -> Option<(Sources, Value)> {
         let c = gen_wt_case(seed, "c14", idx, &Cfg::default(), st)?;
         let mut rng = Rng::for_case(seed, "c14base", idx);
-        let base = gen_base(&mut rng, idx % 3 != 0);
+        // every other base is open: carried-over components refer to schemas of the base, mandatory strings may be empty
+        let base = if idx % 2 == 1 { crate::gen::base::gen_base_open(&mut rng, idx % 3 != 0) } else { gen_base(&mut rng, idx % 3 != 0) };
         Some((c.sources, base))
     }
 }
@@ -255,7 +264,7 @@ pub fn run(ctx: &Ctx) -> i32 {
         "generated base documents over the OpenAPI object model (info with contact/license, servers with variables, security, tags, externalDocs, components.{securitySchemes, parameters, responses, headers, examples, requestBodies, links}, pre-existing paths and schemas incl. names equal to the program's, x- extensions) x G-wt programs; output of Builder::with_base (and of the real oal-cli -b for a slice) compared field-wise with the base as the tool's model represents it, with the raw base when the model round-trips it verbatim, and with the base-less output for paths and schemas; the CLI slice first generates the target from a richer base, then from the base under test (a target is normally regenerated); bases carry x- keys directly under paths; non-trivial = base has components, paths or schemas; distinct by (sources, base)",
         if ctx.quick() { 500 } else { 5000 },
         false,
-        &["bases are closed w.r.t. what survives the merge (nothing outside paths/schemas refers to a schema component)"],
+        &["half of the bases are closed w.r.t. what survives the merge; in the other half carried-over components may refer to schema components of the base (the references then dangle in the output, which is not judged) and mandatory strings may be empty"],
         json!({}),
     )
 }
